@@ -1,0 +1,573 @@
+//! Verification driver (compiled only with `--cfg jence_verif`).
+//!
+//! A line-protocol front end that calls the engine's own functions in-process so that an
+//! external model can be compared with them on identical inputs. One request per line; every
+//! answer is zero or more payload lines followed by a line holding a single `.`.
+//! Nothing in here is reachable unless the binary is built with the guard AND started with
+//! the environment variable `JENCE_VERIF=driver`.
+
+use super::*;
+use std::cell::RefCell;
+use std::io::BufRead;
+use std::panic::{catch_unwind, AssertUnwindSafe};
+
+const FNV_INIT: u64 = 0xcbf29ce484222325;
+const FNV_PRIME: u64 = 0x100000001b3;
+
+#[inline(always)]
+fn fnv(h: u64, w: u64) -> u64 {
+    (h ^ w).wrapping_mul(FNV_PRIME)
+}
+
+pub struct State {
+    pub active: bool,
+    // search-entry intercept
+    pub intercept: bool,
+    pub captured: Option<(i8, i64)>,
+    // poll schedule
+    pub stop_at: i64,          // -1 = never
+    pub poll_count: i64,
+    pub polls: Vec<u64>,
+    pub sub_mask: u64,         // u64::MAX = no extra polls
+    pub stop_seen: bool,
+    // events
+    pub trace_mode: u8,        // 0 off, 1 digest, 2 full
+    pub digest: u64,
+    pub events: u64,
+    pub post_stop_writes: u64, // pv inserts / tt records after the stop was raised
+    pub tt_bypass: bool,
+    pub end: Option<(u8, usize, bool)>,
+    pub in_search: bool,
+}
+
+impl State {
+    fn new() -> Self {
+        Self {
+            active: false, intercept: false, captured: None, stop_at: -1, poll_count: 0, polls: Vec::new(),
+            sub_mask: u64::MAX, stop_seen: false, trace_mode: 0, digest: FNV_INIT, events: 0,
+            post_stop_writes: 0, tt_bypass: false, end: None, in_search: false,
+        }
+    }
+}
+
+thread_local! {
+    pub static ST: RefCell<State> = RefCell::new(State::new());
+}
+
+pub fn driver_requested() -> bool {
+    match std::env::var("JENCE_VERIF") { Ok(v) => v == "driver", Err(_) => false }
+}
+
+// ---------------------------------------------------------------------------------------------
+// hooks called from the engine
+// ---------------------------------------------------------------------------------------------
+
+fn ev(words: &[u64], line: impl FnOnce() -> String) {
+    ST.with(|s| {
+        let mut s = s.borrow_mut();
+        if !s.active || s.trace_mode == 0 { return; }
+        let mut h = s.digest;
+        for w in words { h = fnv(h, *w); }
+        s.digest = h;
+        s.events += 1;
+        if s.trace_mode == 2 { println!("ev {}", line()); }
+    })
+}
+
+pub fn game_hash(game: &Game) -> u64 {
+    let mut h = FNV_INIT;
+    for i in 0..12 { h = fnv(h, game.bitboards[i].to_u64()); }
+    h = fnv(h, game.white_occupancies.to_u64());
+    h = fnv(h, game.black_occupancies.to_u64());
+    h = fnv(h, game.all_occupancies.to_u64());
+    h = fnv(h, game.active_player as u64);
+    h = fnv(h, game.enpassant_square as u64);
+    h = fnv(h, game.castling_ability as u64);
+    h = fnv(h, game.half_moves as u64);
+    h = fnv(h, game.full_moves as u64);
+    h = fnv(h, game.zobrist_hash);
+    h
+}
+
+pub fn dump(game: &Game) -> String {
+    let mut s = String::new();
+    for i in 0..12 { s += &format!("{:016x} ", game.bitboards[i].to_u64()); }
+    s += &format!("{:016x} {:016x} {:016x} ", game.white_occupancies.to_u64(), game.black_occupancies.to_u64(), game.all_occupancies.to_u64());
+    s += &format!("{} {} {} {} {} {:016x}",
+        if game.active_player == Color::White { "w" } else { "b" },
+        game.enpassant_square as u8, game.castling_ability, game.half_moves, game.full_moves, game.zobrist_hash);
+    s
+}
+
+/// search-entry intercept: returns true when the search must be skipped
+pub fn on_search_entry(depth: i8, max_time: i64) -> bool {
+    ST.with(|s| {
+        let mut s = s.borrow_mut();
+        if !s.active { return false; }
+        s.captured = Some((depth, max_time));
+        s.in_search = true;
+        s.intercept
+    })
+}
+
+pub fn on_search_end(ply: u8, rep_index: usize, stopping: bool) {
+    ST.with(|s| {
+        let mut s = s.borrow_mut();
+        if !s.active { return; }
+        s.end = Some((ply, rep_index, stopping));
+        s.in_search = false;
+    });
+    ev(&[10, ply as u64, rep_index as u64, stopping as u64], || format!("end {} {} {}", ply, rep_index, stopping as u8));
+}
+
+/// Some(answer) replaces the real poll; None lets the engine do what it does.
+pub fn on_poll(nodes: u64) -> Option<bool> {
+    let r = ST.with(|s| {
+        let mut s = s.borrow_mut();
+        if !s.active { return None; }
+        let k = s.poll_count;
+        s.poll_count += 1;
+        s.polls.push(nodes);
+        let stop = s.stop_at >= 0 && k == s.stop_at;
+        if stop { s.stop_seen = true; }
+        Some(stop)
+    });
+    if let Some(stop) = r {
+        ev(&[9, nodes, stop as u64], || format!("poll {} {}", nodes, stop as u8));
+    }
+    r
+}
+
+/// extra poll points (only consulted at node counts where the engine's own mask test is false)
+pub fn extra_poll(nodes: u64) -> bool {
+    ST.with(|s| {
+        let s = s.borrow();
+        s.active && s.sub_mask != u64::MAX && (nodes & s.sub_mask) == 0
+    })
+}
+
+pub fn on_node(kind: u8, game: &Game, ply: u8, depth: u8, alpha: i32, beta: i32, nodes: u64, stopping: bool) {
+    let active = ST.with(|s| { let s = s.borrow(); s.active && s.trace_mode != 0 });
+    if !active { return; }
+    let gh = game_hash(game);
+    ev(&[kind as u64, gh, ply as u64, depth as u64, alpha as i64 as u64, beta as i64 as u64, nodes, stopping as u64],
+       || format!("{} {} {} {} {} {} {} | {}", if kind == 1 { "N" } else { "Q" }, ply, depth, alpha, beta, nodes, stopping as u8, dump(game)));
+}
+
+pub fn on_tt_hit(ply: u8, key: u64, score: i32) {
+    ev(&[4, ply as u64, key, score as i64 as u64], || format!("tthit {} {:016x} {}", ply, key, score));
+}
+
+pub fn on_rep(ply: u8, key: u64, slot: u64) {
+    ev(&[3, ply as u64, key, slot], || format!("rep {} {:016x} {:016x}", ply, key, slot));
+}
+
+pub fn on_verdict(ply: u8, key: u64, in_check: bool) {
+    ev(&[5, ply as u64, key, in_check as u64], || format!("verdict {} {:016x} {}", ply, key, if in_check { "mate" } else { "stalemate" }));
+}
+
+pub fn on_pv_insert(ply: u8, m: u32) {
+    ST.with(|s| { let mut s = s.borrow_mut(); if s.active && s.in_search && s.stop_seen { s.post_stop_writes += 1; } });
+    ev(&[7, ply as u64, m as u64], || format!("pv {} {:06x}", ply, m));
+}
+
+pub fn on_tt_record(key: u64, score: i32, depth: u8, flag: u8, ply: u8) {
+    ST.with(|s| { let mut s = s.borrow_mut(); if s.active && s.in_search && s.stop_seen { s.post_stop_writes += 1; } });
+    ev(&[8, key, score as i64 as u64, depth as u64, flag as u64, ply as u64], || format!("ttrec {:016x} {} {} {} {}", key, score, depth, flag, ply));
+}
+
+pub fn tt_bypass() -> bool {
+    ST.with(|s| { let s = s.borrow(); s.active && s.tt_bypass })
+}
+
+// ---------------------------------------------------------------------------------------------
+// driver
+// ---------------------------------------------------------------------------------------------
+
+struct Rng(u64);
+impl Rng {
+    fn next(&mut self) -> u64 {
+        let mut x = self.0;
+        x ^= x << 13;
+        x ^= x >> 7;
+        x ^= x << 17;
+        self.0 = x;
+        x
+    }
+}
+
+fn pdep(index: u64, mask: u64) -> u64 {
+    let mut res = 0u64;
+    let mut m = mask;
+    let mut i = 0;
+    while m != 0 {
+        let sq = m.trailing_zeros();
+        m &= m - 1;
+        if index & (1u64 << i) != 0 { res |= 1u64 << sq; }
+        i += 1;
+    }
+    res
+}
+
+fn parse_dump(tokens: &[&str]) -> Option<Game> {
+    if tokens.len() < 21 { return None; }
+    let mut bbs = [Bitboard::new(); 12];
+    for i in 0..12 { bbs[i] = Bitboard::from_u64(u64::from_str_radix(tokens[i], 16).ok()?); }
+    let w = u64::from_str_radix(tokens[12], 16).ok()?;
+    let b = u64::from_str_radix(tokens[13], 16).ok()?;
+    let a = u64::from_str_radix(tokens[14], 16).ok()?;
+    let side = if tokens[15] == "w" { Color::White } else { Color::Black };
+    let ep: usize = tokens[16].parse().ok()?;
+    if ep > 64 { return None; }
+    let castling: u8 = tokens[17].parse().ok()?;
+    let half: u8 = tokens[18].parse().ok()?;
+    let full: u16 = tokens[19].parse().ok()?;
+    let key = u64::from_str_radix(tokens[20], 16).ok()?;
+    Some(Game {
+        bitboards: bbs,
+        white_occupancies: Bitboard::from_u64(w), black_occupancies: Bitboard::from_u64(b), all_occupancies: Bitboard::from_u64(a),
+        active_player: side, enpassant_square: SQUARES[ep], castling_ability: castling,
+        full_moves: full, half_moves: half, zobrist_hash: key,
+    })
+}
+
+fn move_hex(m: &Move) -> String {
+    format!("{:06x}", move_data(m))
+}
+
+pub fn move_data(m: &Move) -> u32 {
+    (m.from_square() as u32) | ((m.to_square() as u32) << 6) | ((m.piece() as u32) << 12) | ((m.promotion() as u32) << 16)
+        | if m.is_capture() { 0x100000 } else { 0 } | if m.is_double_push() { 0x200000 } else { 0 }
+        | if m.is_enpassant() { 0x400000 } else { 0 } | if m.is_castling() { 0x800000 } else { 0 }
+}
+
+fn rep_line(rep: &RepetitionTable) -> String {
+    let mut s = format!("rep {}", rep.index);
+    for i in 0..rep.index.min(1000) { s += &format!(" {:016x}", rep.table[i]); }
+    s
+}
+
+fn split_semis(rest: &str) -> Vec<String> {
+    rest.split(';').map(|p| p.trim().to_string()).collect()
+}
+
+fn row(name: &str, vals: impl Iterator<Item = String>) {
+    let v: Vec<String> = vals.collect();
+    println!("{} {}", name, v.join(" "));
+}
+
+fn cmd_consts() {
+    row("WHITE_PAWN_ATTACKS", (0..64u8).map(|s| format!("{:x}", get_pawn_attack_table(s, Color::White).to_u64())));
+    row("BLACK_PAWN_ATTACKS", (0..64u8).map(|s| format!("{:x}", get_pawn_attack_table(s, Color::Black).to_u64())));
+    row("KNIGHT_ATTACKS", (0..64u8).map(|s| format!("{:x}", get_knight_attack_table(s).to_u64())));
+    row("KING_ATTACKS", (0..64u8).map(|s| format!("{:x}", get_king_attack_table(s).to_u64())));
+    let (rm, bm, ro, bo, n) = attack_tables::verif_layout();
+    row("ROOK_MASK", rm.iter().map(|v| format!("{:x}", v)));
+    row("BISHOP_MASK", bm.iter().map(|v| format!("{:x}", v)));
+    row("ROOK_OFFSETS", ro.iter().map(|v| format!("{}", v)));
+    row("BISHOP_OFFSETS", bo.iter().map(|v| format!("{}", v)));
+    println!("SLIDING_LEN {}", n);
+    for p in 0..12 { row(&format!("PIECE_KEYS_{}", p), PIECE_KEYS[p].iter().map(|v| format!("{:x}", v))); }
+    row("ENPASSANT_KEYS", ENPASSANT_KEYS.iter().map(|v| format!("{:x}", v)));
+    row("CASTLE_KEYS", CASTLE_KEYS.iter().map(|v| format!("{:x}", v)));
+    println!("SIDE_KEY {:x}", SIDE_KEY);
+    row("CASTLING_RIGHTS", CASTLING_RIGHTS.iter().map(|v| format!("{}", v)));
+    row("LOOKUP_RANK", LOOKUP_RANK.iter().map(|v| format!("{}", v)));
+    row("SQUARE_STRINGS", SQUARE_STRINGS.iter().map(|v| v.to_string()));
+    row("PIECE_STRINGS", PIECE_STRINGS.iter().map(|v| v.to_string()));
+    row("MATERIAL_WEIGHTS", MATERIAL_WEIGHTS.iter().map(|v| format!("{}", v)));
+    row("PAWN_SCORES", PAWN_SCORES.iter().map(|v| format!("{}", v)));
+    row("KNIGHT_SCORES", KNIGHT_SCORES.iter().map(|v| format!("{}", v)));
+    row("BISHOP_SCORES", BISHOP_SCORES.iter().map(|v| format!("{}", v)));
+    row("ROOK_SCORES", ROOK_SCORES.iter().map(|v| format!("{}", v)));
+    row("KING_SCORES", KING_SCORES.iter().map(|v| format!("{}", v)));
+    row("MIRRORED", MIRRORED.iter().map(|v| format!("{}", v)));
+    for a in 0..12 { row(&format!("MVV_LVA_{}", a), MVV_LVA[a].iter().map(|v| format!("{}", v))); }
+    evaluation::verif_consts();
+    search::verif_consts();
+    println!("TT_SIZE {}", TT_SIZE);
+    println!("UNKNOWN_SCORE {}", UNKNOWN_SCORE);
+    println!("REP_CAPACITY {}", RepetitionTable::new().table.len());
+}
+
+fn cmd_sliding() {
+    let (_, _, _, _, n) = attack_tables::verif_layout();
+    let mut i = 0;
+    while i < n {
+        let end = (i + 64).min(n);
+        row("S", (i..end).map(|j| format!("{:x}", attack_tables::verif_sliding(j))));
+        i = end;
+    }
+}
+
+fn attack(kind: &str, sq: u8, occ: u64) -> Option<u64> {
+    let o = Bitboard::from_u64(occ);
+    Some(match kind {
+        "R" => get_rook_attack_table(sq, o).to_u64(),
+        "B" => get_bishop_attack_table(sq, o).to_u64(),
+        "Q" => get_queen_attack_table(sq, o).to_u64(),
+        "N" => get_knight_attack_table(sq).to_u64(),
+        "K" => get_king_attack_table(sq).to_u64(),
+        "P" => get_pawn_attack_table(sq, Color::White).to_u64(),
+        "p" => get_pawn_attack_table(sq, Color::Black).to_u64(),
+        _ => return None,
+    })
+}
+
+/// every (square, relevant-occupancy subset) pair, `reps` random settings of the irrelevant bits each
+fn cmd_attackall(seed: u64, reps: u32) {
+    let (rm, bm, _, _, _) = attack_tables::verif_layout();
+    let mut rng = Rng(seed | 1);
+    for sq in 0..64usize {
+        let mut hr = FNV_INIT;
+        let mut hb = FNV_INIT;
+        let mut hq = FNV_INIT;
+        let nr = 1u64 << rm[sq].count_ones();
+        for i in 0..nr {
+            let base = pdep(i, rm[sq]);
+            for _ in 0..reps {
+                let occ = base | (rng.next() & !rm[sq]);
+                hr = fnv(hr, get_rook_attack_table(sq as u8, Bitboard::from_u64(occ)).to_u64());
+            }
+        }
+        let nb = 1u64 << bm[sq].count_ones();
+        for i in 0..nb {
+            let base = pdep(i, bm[sq]);
+            for _ in 0..reps {
+                let occ = base | (rng.next() & !bm[sq]);
+                hb = fnv(hb, get_bishop_attack_table(sq as u8, Bitboard::from_u64(occ)).to_u64());
+                hq = fnv(hq, get_queen_attack_table(sq as u8, Bitboard::from_u64(occ)).to_u64());
+            }
+        }
+        println!("sq {} {:016x} {:016x} {:016x}", sq, hr, hb, hq);
+    }
+}
+
+fn cmd_gen(fen: &str) {
+    let g = Game::new_from_fen(fen);
+    if g.is_none() { println!("!none"); return; }
+    let mut game = g.unwrap();
+    let all = generate_moves(&mut game, MoveTypes::All);
+    row("all", all.iter().map(|m| move_hex(m)));
+    let q = generate_moves(&mut game, MoveTypes::Quiescence);
+    row("quiet", q.iter().map(|m| move_hex(m)));
+    row("legal", all.legal_values(&game).iter().map(|m| move_hex(m)));
+    let mut made: Vec<String> = Vec::new();
+    for m in all.iter() {
+        let mut copy = game;
+        if make_move(&mut copy, m) { made.push(move_hex(m)); }
+    }
+    row("made", made.into_iter());
+    let mut qmade: Vec<String> = Vec::new();
+    for m in q.iter() {
+        let mut copy = game;
+        if make_move(&mut copy, m) { qmade.push(move_hex(m)); }
+    }
+    row("qmade", qmade.into_iter());
+    row("uci", all.legal_values(&game).iter().map(|m| m.to_uci()));
+    println!("check {}", game.is_in_check(game.active_player) as u8);
+    println!("bulk {}", all.bulk_count(&mut game));
+}
+
+fn cmd_play(rest: &str) {
+    let parts = split_semis(rest);
+    let g = Game::new_from_fen(&parts[0]);
+    if g.is_none() { println!("!none"); return; }
+    let mut game = g.unwrap();
+    let mut rep = RepetitionTable::new();
+    println!("{} | {:016x} | {}", dump(&game), game.make_zobrist_hash(), rep_line(&rep));
+    if parts.len() < 2 { return; }
+    for mv in parts[1].split(' ').filter(|s| !s.is_empty()) {
+        match game.parse_move(mv.to_string()) {
+            None => { println!("!illegal {}", mv); return; }
+            Some(m) => {
+                let ok = make_search_move(&mut game, &m, &mut rep);
+                println!("{} | {:016x} | {} | {} {}", dump(&game), game.make_zobrist_hash(), rep_line(&rep), move_hex(&m), ok as u8);
+            }
+        }
+    }
+}
+
+fn cmd_fen(rest: &str) {
+    match Game::new_from_fen(rest) {
+        None => println!("!none"),
+        Some(g) => println!("{}", dump(&g)),
+    }
+}
+
+fn cmd_position(rest: &str) {
+    let mut rep = RepetitionTable::new();
+    rep.clear();
+    match parse_position(rest.to_string(), &mut rep) {
+        None => println!("!none"),
+        Some(g) => { println!("{}", dump(&g)); println!("{}", rep_line(&rep)); }
+    }
+}
+
+fn cmd_show(rest: &str) {
+    let mut rep = RepetitionTable::new();
+    match parse_position(rest.to_string(), &mut rep) {
+        None => println!("!none"),
+        Some(g) => g.pretty_print(),
+    }
+}
+
+fn cmd_eval(rest: &str) {
+    let toks: Vec<&str> = rest.split(' ').filter(|s| !s.is_empty()).collect();
+    match parse_dump(&toks) {
+        None => println!("!none"),
+        Some(g) => println!("{}", evaluate(&g)),
+    }
+}
+
+fn cmd_tt(rest: &str, tt: &mut TranspositionTable) {
+    for op in split_semis(rest) {
+        let t: Vec<&str> = op.split(' ').filter(|s| !s.is_empty()).collect();
+        if t.is_empty() { continue; }
+        match t[0] {
+            "c" => { tt.clear(); }
+            "r" => {
+                let key = u64::from_str_radix(t[1], 16).unwrap();
+                let score: i32 = t[2].parse().unwrap();
+                let depth: u8 = t[3].parse().unwrap();
+                let flag = match t[4] { "A" => HashFlag::Alpha, "B" => HashFlag::Beta, _ => HashFlag::Exact };
+                let ply: u8 = t[5].parse().unwrap();
+                tt.record(key, score, depth, flag, ply);
+            }
+            "p" => {
+                let key = u64::from_str_radix(t[1], 16).unwrap();
+                let depth: u8 = t[2].parse().unwrap();
+                let alpha: i32 = t[3].parse().unwrap();
+                let beta: i32 = t[4].parse().unwrap();
+                let ply: u8 = t[5].parse().unwrap();
+                println!("{}", tt.probe(key, depth, alpha, beta, ply));
+            }
+            _ => println!("!bad"),
+        }
+    }
+}
+
+fn cmd_budget(rest: &str, io: &IoWrapper, tt: &mut TranspositionTable) {
+    let parts = split_semis(rest);
+    let mut game = Game::new_from_start_pos();
+    if parts[0] == "b" { game.active_player = Color::Black; }
+    let mut rep = RepetitionTable::new();
+    ST.with(|s| { let mut s = s.borrow_mut(); s.intercept = true; s.captured = None; });
+    let args = format!(" {}", if parts.len() > 1 { parts[1].as_str() } else { "" });
+    parse_go(args, &mut game, io, tt, &mut rep);
+    let cap = ST.with(|s| { let mut s = s.borrow_mut(); s.intercept = false; s.in_search = false; s.captured.take() });
+    match cap {
+        None => println!("nosearch"),
+        Some((d, t)) => println!("{} {}", d, t),
+    }
+}
+
+fn cmd_perft(rest: &str) {
+    let parts = split_semis(rest);
+    let g = Game::new_from_fen(&parts[0]);
+    if g.is_none() || parts.len() < 2 { println!("!none"); return; }
+    let mut game = g.unwrap();
+    let depth: u8 = parts[1].parse().unwrap();
+    println!("{}", perft(&mut game, depth, false));
+}
+
+/// search <position args> ; depth=D stop=never|K pollmask=real|M tt=cold|keep|bypass trace=off|digest|full
+fn cmd_search(rest: &str, io: &IoWrapper, tt: &mut TranspositionTable) {
+    let parts = split_semis(rest);
+    let mut rep = RepetitionTable::new();
+    let g = parse_position(parts[0].clone(), &mut rep);
+    if g.is_none() { println!("!none"); return; }
+    let mut game = g.unwrap();
+    let mut depth: i8 = 1;
+    let mut stop_at: i64 = -1;
+    let mut sub_mask: u64 = u64::MAX;
+    let mut trace_mode = 0u8;
+    let mut bypass = false;
+    let mut cold = true;
+    let mut max_time: i64 = -1;
+    if parts.len() > 1 {
+        for o in parts[1].split(' ').filter(|s| !s.is_empty()) {
+            let kv: Vec<&str> = o.splitn(2, '=').collect();
+            if kv.len() != 2 { continue; }
+            match kv[0] {
+                "depth" => depth = kv[1].parse().unwrap(),
+                "stop" => stop_at = if kv[1] == "never" { -1 } else { kv[1].parse().unwrap() },
+                "pollmask" => sub_mask = if kv[1] == "real" { u64::MAX } else { kv[1].parse().unwrap() },
+                "trace" => trace_mode = match kv[1] { "digest" => 1, "full" => 2, _ => 0 },
+                "tt" => { bypass = kv[1] == "bypass"; cold = kv[1] != "keep"; }
+                "maxtime" => max_time = kv[1].parse().unwrap(),
+                _ => {}
+            }
+        }
+    }
+    if cold { tt.clear(); }
+    let before = game_hash(&game);
+    let rep_before = rep_line(&rep);
+    ST.with(|s| {
+        let mut s = s.borrow_mut();
+        s.intercept = false; s.captured = None; s.stop_at = stop_at; s.poll_count = 0; s.polls.clear();
+        s.sub_mask = sub_mask; s.stop_seen = false; s.trace_mode = trace_mode; s.digest = FNV_INIT; s.events = 0;
+        s.post_stop_writes = 0; s.tt_bypass = bypass; s.end = None; s.in_search = false;
+    });
+    let r = search(&mut game, depth, max_time, io, tt, &mut rep);
+    let (polls, digest, events, post, end) = ST.with(|s| {
+        let mut s = s.borrow_mut();
+        s.trace_mode = 0; s.tt_bypass = false; s.stop_at = -1; s.sub_mask = u64::MAX; s.in_search = false;
+        (s.polls.clone(), s.digest, s.events, s.post_stop_writes, s.end.take())
+    });
+    println!("result best={} nodes={} score={} depth={} complete={} tthits={}", move_hex(&r.best_move), r.nodes_visited, r.score, r.depth, r.reached_max_ply as u8, r.tt_hits);
+    row("polls", polls.iter().map(|n| format!("{}", n)));
+    match end {
+        Some((ply, idx, stopping)) => println!("end ply={} repidx={} stopping={}", ply, idx, stopping as u8),
+        None => println!("end none"),
+    }
+    println!("unchanged game={} rep={}", (game_hash(&game) == before) as u8, (rep_line(&rep) == rep_before) as u8);
+    println!("poststop {}", post);
+    println!("trace {:016x} {}", digest, events);
+}
+
+pub fn driver_main() {
+    std::panic::set_hook(Box::new(|_| {}));
+    ST.with(|s| s.borrow_mut().active = true);
+    let io = IoWrapper::verif_detached();
+    let mut tt = TranspositionTable::new();
+    let stdin = std::io::stdin();
+    for line in stdin.lock().lines() {
+        let line = match line { Ok(l) => l, Err(_) => break };
+        let line = line.trim_end_matches(['\r', '\n']).to_string();
+        if line.is_empty() { continue; }
+        let (cmd, rest) = match line.find(' ') { Some(i) => (&line[..i], line[i + 1..].to_string()), None => (line.as_str(), String::new()) };
+        let res = catch_unwind(AssertUnwindSafe(|| {
+            match cmd {
+                "consts" => cmd_consts(),
+                "sliding" => cmd_sliding(),
+                "attack" => {
+                    let t: Vec<&str> = rest.split(' ').collect();
+                    let sq: u8 = t[1].parse().unwrap();
+                    let occ = u64::from_str_radix(t[2], 16).unwrap();
+                    match attack(t[0], sq, occ) { Some(v) => println!("{:016x}", v), None => println!("!bad") }
+                }
+                "attackall" => {
+                    let t: Vec<&str> = rest.split(' ').collect();
+                    cmd_attackall(t[0].parse().unwrap(), if t.len() > 1 { t[1].parse().unwrap() } else { 1 })
+                }
+                "gen" => cmd_gen(&rest),
+                "play" => cmd_play(&rest),
+                "fen" => cmd_fen(&rest),
+                "position" => cmd_position(&rest),
+                "show" => cmd_show(&rest),
+                "eval" => cmd_eval(&rest),
+                "tt" => cmd_tt(&rest, &mut tt),
+                "budget" => cmd_budget(&rest, &io, &mut tt),
+                "perft" => cmd_perft(&rest),
+                "search" => cmd_search(&rest, &io, &mut tt),
+                _ => println!("!unknown"),
+            }
+        }));
+        if res.is_err() {
+            ST.with(|s| { let mut s = s.borrow_mut(); s.intercept = false; s.trace_mode = 0; s.tt_bypass = false; s.in_search = false; s.stop_at = -1; s.sub_mask = u64::MAX; });
+            println!("!panic");
+        }
+        println!(".");
+    }
+}
